@@ -126,7 +126,7 @@ def check_c14(case, stats):
 
 
 CHECKS = {'check_c14': check_c14}
-_B = {'quick': 40, 'thorough': 500}
+_B = {'quick': 40, 'thorough': 1000}
 
 
 def shards(tier):
